@@ -14,6 +14,7 @@ from . import common
 PID = "C03"
 CLS = "SimplicialComplex"
 ANCHORS = ("xgi/core/simplicialcomplex.py", "xgi/utils/utilities.py")
+TECHNIQUE = "runtime monitoring: closure/duplicate invariant + per-op post-conditions after every op of seeded edit histories"
 RULE = (
     "case = one seeded edit history (<= 25 ops from SimplicialComplex's own mutators: add_simplex, add_simplices_from fmt 1-5 x max_order, "
     "weighted, remove_simplex_id(s), remove_node(s), close, cleanup, the deprecated edge aliases, relabelling) from a constructible start state; "
